@@ -351,8 +351,17 @@ def run_cli_sample(job):
             recs = [x for name, x in res["records"] if name == "uses" and x[1] != "UsesObject"]
         if recs:
             kind_, val = recs[-1]
-            return val
-        return res["error"] or "rc=%s" % res["rc"]
+        else:
+            val = res["error"] or "rc=%s" % res["rc"]
+        printed = None
+        if kind == "list" and not isinstance(val, str):
+            # what `eups list -D` printed: lines "<indent><name>   <version>"
+            printed = []
+            for line in res["stdout"].splitlines():
+                parts = line.replace("|", " ").split()
+                if len(parts) == 2:
+                    printed.append(parts)
+        return {"val": val, "printed": printed}
     finally:
         common.rmtree(root)
 
@@ -364,7 +373,20 @@ def in_child_job(job):
 
 def in_child_cli(job):
     r = common.in_child(run_cli_sample, job)
-    return r[1] if r[0] == "ok" else "crash:%r" % (r,)
+    return r[1] if r[0] == "ok" else {"val": "crash:%r" % (r,), "printed": None}
+
+
+def expected_print(root, mode, listing):
+    """`printProducts`: the root, then every entry whose product name has not been printed yet; nothing at all
+    for --checkCycles without --topological"""
+    if mode[1] and not mode[0]:
+        return []
+    out, seen = [[root[0], root[1]]], set()
+    for e in listing:
+        if e[0] not in seen:
+            seen.add(e[0])
+            out.append([e[0], str(e[1])])
+    return out
 
 
 # ---- model ---------------------------------------------------------------------------------------------
@@ -442,9 +464,15 @@ def evaluate(ctx, graphs, ncli=2, corpus=False):
                     for clause, fid, detail in oracle_users(R, g, q, out, cache):
                         ctx.fail(clause, inp, out, mo, note=detail, finding=fid)
     # the command-line sample: must equal what the API gave (hence the model)
-    for (gi, kind, a), out in zip(clijobs, cliout):
+    for (gi, kind, a), res in zip(clijobs, cliout):
         g, roots, queries = jobs[gi]
+        out = res["val"]
         ctx.hist("cli:%s" % kind)
+        if res["printed"] is not None:
+            want = expected_print(roots[a[0]], MODES[a[1]], out)
+            if res["printed"] != want:
+                ctx.fail("cli_prints_listing", {"graph": g, "root": roots[a[0]], "mode": MODES[a[1]], "via": "command line"},
+                         res["printed"], want, note="eups list -D printed something else than the listing it computed")
         if kind == "list":
             api = impl[gi]["lists"][a[0]][a[1]]
             inp = {"graph": g, "root": roots[a[0]], "mode": MODES[a[1]], "via": "command line"}
@@ -601,6 +629,7 @@ def run(ctx):
 
 
 def replay(ctx, rp):
+    common.import_eups()
     inp = rp["input"]
     fails = []
     if "intgraph" in inp:
@@ -612,13 +641,18 @@ def replay(ctx, rp):
         return {"input": inp, "impl_output": impl, "model_output": a, "fails": []}
     g = inp["graph"]
     R = Resolved(g)
+    cli_fails = []
     if "root" in inp:
         roots, queries = [inp["root"]], []
     else:
         roots, queries = [], [inp["query"]] if inp.get("query") else queries_of(g)
     if inp.get("via") == "command line":
         kind = "list" if "root" in inp else "uses"
-        out = in_child_cli((g, kind, (inp["root"], inp["mode"]) if kind == "list" else inp["query"]))
+        res = in_child_cli((g, kind, (inp["root"], inp["mode"]) if kind == "list" else inp["query"]))
+        out = res["val"]
+        if res["printed"] is not None and res["printed"] != expected_print(inp["root"], inp["mode"], out):
+            cli_fails.append({"clause": "cli_prints_listing", "class": None,
+                              "detail": "printed %s, listing %s" % (res["printed"], expected_print(inp["root"], inp["mode"], out))})
         io_ = {"lists": [[out if m == inp.get("mode") else None for m in MODES]], "uses": "ok", "users": [out]}
     else:
         io_ = in_child_job((g, roots, queries))
@@ -634,4 +668,4 @@ def replay(ctx, rp):
         else:
             out, mo = io_["users"][0], (ans.get("users") or [None])[0]
             fails = [{"clause": c, "class": f, "detail": d} for c, f, d in oracle_users(R, g, queries[0], out, {})]
-    return {"input": inp, "impl_output": out, "model_output": mo, "agree": out == mo, "fails": fails}
+    return {"input": inp, "impl_output": out, "model_output": mo, "agree": out == mo, "fails": fails + cli_fails}
